@@ -186,7 +186,8 @@ def mutate(rng, prefix, lines):
 
 class P(Property):
     id = 'C11'
-    gen_modules = ['gen_static', 'gen_qstateless', 'gen_prefixint', 'gen_huffman', 'gen_huffman_enc']
+    gen_modules = ['gen_codes', 'gen_static', 'gen_qstateless', 'gen_limits', 'gen_prefixint', 'gen_huffman', 'gen_huffman_enc', 'gen_prefixstring', 'gen_bitwin']
+    extra_bins = ['c10']          # the scripted-peer harness over SimQuic: bad sections at the three receive sites
     properties_v = 'Properties/C11.v'
     model_targets = ['Model/QpackStateless.vo', 'Spec/RFC9204Static.vo', 'Spec/FieldSize.vo']
     extract_v = 'Extract/ExtractC11.v'
@@ -200,7 +201,7 @@ class P(Property):
             'non-minimal integers, Delta Base values) and their grammar-directed single-point mutations (Required Insert Count, S bit, '
             'T bit, pattern bits, static index 98/99/100, bit flips, truncation, insertion, deletion, trailing octets), integers with '
             '8..11 continuation octets, Huffman payloads with 0..40 bits of one-padding, seeded random strings, finite limits around '
-            'the section size; q.decc: the same kinds of inputs handed over as NON-contiguous multi-chunk buffers (h3v::ChunkBuf), cut at every position (one cut), at every pair of positions (two cuts), into single octets, and at seeded random positions. non-trivial = distinct q.enc cases with a '
+            'the section size, sections of 50..1000 field lines (valid, and with one bad line first / in the middle / last), string lengths k*2^32+j, k*2^16+j with j octets present in all four string positions; every q.enc output is also read back by the own decoder of h3; 150 (quick) refused sections are sent by a scripted peer to the real server and client over SimQuic as request, response, request trailers and response trailers: connection error 0x200 and close(0x200) required; q.decc: the same kinds of inputs handed over as NON-contiguous multi-chunk buffers (h3v::ChunkBuf), cut at every position (one cut), at every pair of positions (two cuts), into single octets, and at seeded random positions. non-trivial = distinct q.enc cases with a '
             'non-empty list and distinct q.dec/q.decc cases in which the field-line loop is entered (a 2-octet prefix with Required '
             'Insert Count 0 and S=0 followed by at least one octet)')
     trusted_extra = [
@@ -255,6 +256,14 @@ class P(Property):
         for n in (1, 6, 7, 8, 126, 127, 128, 255, 256, 300):
             out.append('q.enc ' + fields_str([(b'n' * n, b'v' * n)]))
             out.append('q.enc ' + fields_str([(rb(rng, n), rb(rng, n))]))
+        # every row's value in another letter case, padded with SP / HTAB, with an octet prepended / dropped: none of them
+        # is the row, so none may be written as the row's index
+        for n, v in STATIC:
+            alts = {v.upper(), v.lower(), v.swapcase(), v.title(), b' ' + v, v + b' ', b'\t' + v, v + b'\t', b'x' + v, v[:-1], v + b'\x00'}
+            for a in sorted(alts - {v}):
+                out.append('q.enc ' + fields_str([(n, a)]))
+            for a in sorted({n.upper(), n.title(), n + b' ', b' ' + n} - {n}):
+                out.append('q.enc ' + fields_str([(a, v)]))
         for _ in range(3000 if quick else 200000):
             out.append('q.enc ' + fields_str(rand_fields(rng)))
         for _ in range(3 if quick else 60):
@@ -329,6 +338,36 @@ class P(Property):
             out.append('q.dec %d 0000' % m)
             out.append('q.dec %d 0000d1d1' % m)
             out.append('q.dec %d 0000d110' % m)      # too long before / instead of the dynamic reference
+        # --- long sections: 50..1000 field lines, all valid, and with ONE bad line at the front / a random position / the end
+        def line(rng_):
+            k = rng_.random()
+            if k < 0.6:
+                return pint(6, 3, rng_.randrange(99))
+            if k < 0.85:
+                return pint(4, 5, rng_.randrange(99)) + b'\x01v'
+            return b'\x21x\x01v'
+        bads = [b'\x10', b'\x00\x01v', b'\x81', b'\xff\x24', b'\x5f\x54\x01v', b'\x41\x01v', b'\x51\x05v', b'\x2f']
+        for nlines in [50, 99, 100, 101, 127, 128, 129, 255, 256, 257, 300, 500, 1000] + [rng.randint(50, 1000) for _ in range(4 if quick else 100)]:
+            ls = [line(rng) for _ in range(nlines)]
+            out.append('q.dec - 0000' + b''.join(ls).hex())
+            out.append('q.dec %d 0000%s' % (rng.randint(0, 40 * nlines), b''.join(ls).hex()))
+            for pos in sorted({0, nlines // 2, nlines - 1, nlines, rng.randint(0, nlines)}):
+                bad = rng.choice(bads)
+                out.append('q.dec - 0000' + b''.join(ls[:pos] + [bad] + ls[pos:]).hex())
+            cut = len(b''.join(ls)) // 2
+            e = b'\x00\x00' + b''.join(ls) + rng.choice(bads)
+            out.append('q.decc - %s.%s' % (e[:cut].hex(), e[cut:].hex()))
+        # --- string lengths that wrap a narrower integer type: k*2^32 + j and k*2^16 + j with only j octets present,
+        #     in every string position (name-reference value static / dynamic, literal name, literal value), raw and Huffman
+        for k, sh in ((1, 32), (2, 32), (255, 32), (2 ** 20, 32), (1, 16), (3, 16), (1, 8), (1, 31), (1, 29), (1, 33), (1, 48), (1, 62)):
+            for j in (0, 1, 2, 5):
+                n = k * 2 ** sh + j
+                for hbit, body in ((0, b'v' * j), (1, huff(b'v' * j))):
+                    nb = k * 2 ** sh + len(body)
+                    for pre, n_, tail in ((b'\x51', 7, b''), (b'\x41', 7, b''), (b'', 3, b'\x01v'), (b'\x21x', 7, b'')):
+                        fl = hbit if n_ == 7 else 4 + hbit
+                        out.append('q.dec - 0000' + (pre + pint(n_, fl, nb) + body + tail).hex())
+                        out.append('q.dec - 0000' + (pre + pint(n_, fl, nb) + body + tail + b'\xd1').hex())
         # --- every static index, indexed and by name, around the end of the table
         for i in list(range(0, 130)) + [255, 256, 2 ** 16, 2 ** 32, 2 ** 62, 2 ** 63, 2 ** 63 + 62, 2 ** 63 + 63, 2 ** 64 - 1, 2 ** 64 + 5]:
             out.append('q.dec - 0000' + pint(6, 3, i).hex())
@@ -431,6 +470,35 @@ class P(Property):
                                                              'spec': 'reference decoder on the written bytes: %s (expected %s)' % (r[:200], want[:200])}))
                     if len(viol) >= 3:
                         break
+        # 1b. ... and by the implementation's OWN decoder: the same list, in order, with the same size
+        if encs and len(viol) < 3:
+            res = run_cases(ctx['bins'][self.harness_bin], ['q.dec - ' + i.split()[1] for _, i in encs])
+            for (c, i), r in zip(encs, res):
+                want = 'ok %s %s' % (c.split()[1], i.split()[2])
+                if r.strip() != want:
+                    viol.append(('property-fails-on-input', {'input': 'q.dec - ' + i.split()[1], 'impl': r[:300], 'model': None,
+                                                             'spec': 'h3 reading back its own encoding of %s: expected %s' % (c[:200], want[:200])}))
+                    break
+        # 1c. the three receive sites of the real server / client over SimQuic: a section that is not RFC 9204 (strict AND lax
+        #     reading) is a CONNECTION error with code QPACK_DECOMPRESSION_FAILED = 0x200 (RFC 9204 section 6), closed with it
+        bad = [c.split()[2] for c, i, m, s in ctx['rows']
+               if c.startswith('q.dec - ') and s is not None and s.strip() == 'err decomp' and len(c) < 400 and c.split()[2] != '-']
+        if bad and 'c10' in ctx['bins'] and len(viol) < 3:
+            rng = ctx['rng']
+            pick = bad[:40] + [rng.choice(bad) for _ in range(110 if ctx['tier'] == 'quick' else 3000)]
+            lines = []
+            for h in pick:
+                for role, kind in (('srv', 'hdr'), ('cli', 'hdr'), ('srv', 'trl'), ('cli', 'trl')):
+                    lines.append('lim.rx %s %s 4611686018427387903 none %s' % (role, kind, h))
+            res = run_cases(ctx['bins']['c10'], lines)
+            self.site_cases = len(lines)
+            for l, r in zip(lines, res):
+                w = r.split()
+                ok = len(w) == 3 and w[0].startswith('res=err:c:512:') and w[1] == 'tx=-' and w[2] == 'log=close:512'
+                if not ok:
+                    viol.append(('property-fails-on-input', {'input': l, 'impl': r[:300], 'model': None,
+                                                             'spec': 'res=err:c:512 tx=- log=close:512 (connection error QPACK_DECOMPRESSION_FAILED)'}))
+                    break
         # 2. known finding F15b propagated through string literals
         n = 0
         for c, i, m, s in ctx['rows']:
